@@ -185,6 +185,24 @@ def h_convert(ctx):
                           {"sig": sig, "pull": n_})
 
 
+    # --- through an adapter that rewrites the metadata on the way (ValueToGrid: scalar source, gridded consumer)
+    if comp:
+        g = fm.UniformGrid((3,))
+        vout = fm.Output(name="vout", info=fm.Info(time=hlib.T0, grid=fm.NoGrid(), units=u1))
+        vin = fm.Input(name="vin", info=fm.Info(time=hlib.T0, grid=g, units=u2))
+        vout >> fm.adapters.ValueToGrid(g) >> vin
+        vin.ping()
+        vin.exchange_info()
+        vout.push_data(2.5, hlib.T0)
+        d = vin.pull_data(hlib.T0)
+        a, b = affine(u1, u2)
+        want = 2.5 if equiv else float(a) * 2.5 + float(b)
+        ctx.check(d.units == fm.UNITS.Unit(u2), "adapter-link-units", {"sig": sig})
+        got = np.asarray(d.magnitude, dtype=float).reshape(-1)
+        ctx.check(bool(np.allclose(got, want, rtol=1e-9, atol=1e-12)), "adapter-link-conversion",
+                  {"sig": sig, "got": float(got[0]), "want": want})
+
+
 def _all_pairs(cat):
     return [(a, b) for a in cat for b in cat]
 
